@@ -103,9 +103,9 @@ ALPHA = [b"\\", b"\\", b'"', b'"', b" ", b"(", b")", b"[", b"]", b"{", b"}", b"\
          b"\t", b"\x00", b"\xff", b"%", b"*", b"\x0b", b"NIL", b"\\\\", b'\\"']
 
 
-def _str(rng, hot=True):
+def _str(rng, long_p=0.008):
     r = rng.random()
-    if r < 0.04:
+    if r < long_p:
         return {"b": (b"x" * rng.choice([999, 1000, 1001]) + rng.choice([b"", b"\\", b" "])).hex()}
     if r < 0.1:
         return {"b": rng.choice([b"NIL", b"nil", b"", b"{3}", b"()", b'""', b"\\", b"\\\\", b'\\"', b"a\\", b"\r\n", b"a\n "]).hex()}
@@ -191,6 +191,7 @@ def corpus():
         {"x": [None, 5, B(b"NIL"), [B(b""), [B(b"(")], []], B(b"a\nb"), B(b'"')]},
         {"x": []},
         {"x": [[[[[]]]]]},
+        {"x": [B(b"x" * 1000), B(b"y" * 999 + b"\\"), [B(b"z" * 1001)], B(b"w" * 1000 + b" ")]},   # _needsLiteral boundary
         {"raw": b'(a "b c" NIL) {3}\r\nxyz ("\\"")'.hex()},
         {"raw": b"(".hex()},
         {"raw": b'"abc'.hex()},
